@@ -1,7 +1,8 @@
 use crate::framework::Check;
 
+pub mod c04;
 pub mod c06;
 
 pub fn all() -> Vec<&'static dyn Check> {
-    vec![&c06::C06]
+    vec![&c04::C04, &c06::C06]
 }
